@@ -28,6 +28,7 @@ func (e *Exec) VerifyLemma(l *Lemma, ctxPkg *types.Package) (err error) {
 		}
 	}()
 	e.ctxPkg = ctxPkg
+	e.reveal = l.Reveal
 	e.siteCount = map[string]int{}
 	e.boxed = map[string]bool{}
 	e.entry = &State{H: map[string]string{}}
